@@ -573,7 +573,14 @@ func TestEngineStaking(t *testing.T) {
 		}
 
 		// ---- the precompile ----
-		res, err := callAs(ctxA, caller, cl.input)
+		var res *evmtypes.MsgEthereumTxResponse
+		var err error
+		if pv := hx.Catch(func() { res, err = callAs(ctxA, caller, cl.input) }); pv != nil {
+			// C20: precompile input supplied by a user either succeeds or returns an error; a panic under the EVM call is
+			// recovered at the transaction boundary only (no gas accounted, fee kept) and propagates on the query paths
+			p.Oracle("C20-precompile-input-panics", "caller=%d call=%s act=%s mode=%s: the staking precompile panicked: %s", caller, kind, cl.act, cl.sigMode, firstWords(fmt.Sprint(pv), 14))
+			err = fmt.Errorf("panic: %v", pv)
+		}
 		implRes := "ok"
 		logs := "-"
 		if err != nil {
@@ -885,6 +892,11 @@ func TestEngineStaking(t *testing.T) {
 			if mode == "bad-denom" {
 				denom = "uother"
 			}
+			if act == "Redelegate" && r.Chance(1, 3) {
+				oldS = "-" // a redelegation that names no source validator: not a valid message
+				mode = "honest"
+				p.Count("bymsg:redelegate-without-source")
+			}
 			msg := cpcabi.StakingMessage{Action: act, Delegator: addrs[md], Validator: valStr(v), Amount: a, Denom: denom, OldValidator: oldS}
 			chainID := c.chainID
 			if mode == "foreign-chain" {
@@ -921,7 +933,7 @@ func TestEngineStaking(t *testing.T) {
 			if honest && signer == md {
 				rec = md
 			}
-			valid := a.Sign() > 0 && denom == bond
+			valid := a.Sign() > 0 && denom == bond && !(act == "Redelegate" && oldS == "-")
 			runTwin(caller, call{kind: "bymsg", act: act, md: md, val: v, old: old, amt: a, valid: valid, rec: rec, sigMode: mode,
 				input: packStk("delegateByActionMessage", msg, rr, ss, vv)})
 		case k < 86: // withdrawRewardsByMessage
